@@ -3,6 +3,8 @@ package datadog
 // C11 — Datadog chunks: a JSON array "[r1,r2,...]" of the records, within the limits.
 
 import (
+	"bytes"
+	"compress/gzip"
 	"io"
 
 	"github.com/relex/gotils/logger"
@@ -40,10 +42,20 @@ func verifCheckArray(chunk *base.LogChunk, streams [][]byte, maxRecords, maxByte
 			sym.Assert(size <= maxBytes, "size limit respected unless a single record")
 		}
 	}
-	if !sym.Symbolic() {
-		return // natively the payload is gzip-compressed
-	}
 	d := chunk.Data
+	if !sym.Symbolic() {
+		// natively the payload is gzip-compressed (the engine replaces the gzip writer by a pass-through)
+		zr, err := gzip.NewReader(bytes.NewReader(chunk.Data))
+		sym.Assert(err == nil, "payload is a JSON array")
+		if err != nil {
+			return
+		}
+		d, err = io.ReadAll(zr)
+		sym.Assert(err == nil, "payload is a JSON array")
+		if err != nil {
+			return
+		}
+	}
 	sym.Assert(len(d) == size, "payload length = brackets + records + separators")
 	sym.Assert(d[0] == '[' && d[len(d)-1] == ']', "payload is a JSON array")
 	off := 1
@@ -70,12 +82,19 @@ func VerifC11_DatadogChunks() {
 	factory := shared.NewChunkFactory(".dd", 64, buildNewChunkFunc(logger.Root(), maxRecords, maxBytes))
 	maker := shared.NewMessagePacker(logger.Root(), factory)
 	ops := 3 + sym.Tier()
+	// emitted chunks are held (as the buffer and the client do) and checked at the end:
+	// a chunk must not change when later chunks are produced
+	type emitted struct {
+		chunk   *base.LogChunk
+		streams [][]byte
+	}
+	var held []emitted
 	var cur [][]byte
 	for i := 0; i < ops; i++ {
 		if sym.Choice("op", 2) == 0 {
 			s := sym.BigBytes("stream", 1, 40)
 			if prev := maker.WriteStream(s); prev != nil {
-				verifCheckArray(prev, cur, maxRecords, maxBytes)
+				held = append(held, emitted{prev, cur})
 				cur = nil
 				sym.Reach("rolled-over")
 			}
@@ -85,14 +104,27 @@ func VerifC11_DatadogChunks() {
 			if len(cur) == 0 {
 				sym.Assert(c == nil, "flushing an empty packer emits nothing")
 			} else {
-				verifCheckArray(c, cur, maxRecords, maxBytes)
+				held = append(held, emitted{c, cur})
 				cur = nil
 				sym.Reach("flushed")
 			}
 		}
 	}
 	if c := maker.FlushBuffer(); len(cur) > 0 {
-		verifCheckArray(c, cur, maxRecords, maxBytes)
+		held = append(held, emitted{c, cur})
+	}
+	for _, e := range held {
+		verifCheckArray(e.chunk, e.streams, maxRecords, maxBytes)
 	}
 	sym.Reach("done")
 }
+
+// VerifC12_HeldChunksStayIntact: chunks that are still held (queued, being
+// retried) when later records are packed must not change: no byte of a later
+// record appears in an earlier chunk (the C11 run read for C12).
+//
+//verif:stub github.com/relex/slog-agent/output/shared.InitGzipCompessor verifStubGzip
+//verif:solver cvc5-int
+//verif:reach rolled-over flushed done
+//verif:paths 50000
+func VerifC12_HeldChunksStayIntact() { VerifC11_DatadogChunks() }
